@@ -12,7 +12,7 @@ import tempfile
 from vlib import core
 import gen_c10_members as gen
 
-HARNESS = "c10"
+HARNESS = ["c10", "sem"]
 
 TB = ("Coq 8.16.1 kernel and vm_compute; hand-written Gallina models (coq/model/Builtins.v, BuiltinsHeap.v) tied to the code by "
       "(1) the member inventory re-read from the Go sources on every run (go/ast translator tools/gen_c10_members.go, trusted to "
@@ -28,7 +28,9 @@ CLAIM = dict(
           "re-read from the sources has a model clause or is in a named differential-only list. The models are tied to the code on "
           "every run by executing the full table receiver type x member x boundary-value argument tuples (arity 0..4) at API level "
           "and as one-call programs, plus operators, indexing, constructors, @JSON/@文件 functions (inside a temp dir), input-variable "
-          "texts and ill-typed generated programs: a panic, a nil result, a hang or a dead worker is a violation."),
+          "texts and ill-typed generated programs: a panic, a nil result, a hang or a dead worker is a violation. States that only a "
+          "sequence builds (copies of collections mutated through both names, methods whose body holds definitions only, ...) are reached "
+          "by multi-step programs run through the interpreter and through the evaluator model Sem (value, error code and display compared)."),
     note=TB + ("Flocq is used for float64 (int(f), floor, arithmetic): theorems that mention numbers depend on the standard library's "
                "real-number axioms ClassicalDedekindReals.sig_not_dec, ClassicalDedekindReals.sig_forall_dec, "
                "FunctionalExtensionality.functional_extensionality_dep, Classical_Prop.classic (as listed by Print Assumptions). "
@@ -754,10 +756,32 @@ def run(chk, replay=None):
         with open(os.path.join(cwd, "f.txt"), "w", encoding="utf8") as f:
             f.write("文件内容\n")
         os.mkdir(os.path.join(cwd, "d"))
+        if replay is not None and replay.get("kind") == "program":
+            run_sequences(chk, replay)
+            return
         _run(chk, replay, quick, fnd, cwd)
     finally:
         shutil.rmtree(cwd, ignore_errors=True)
     fnd.flush(chk)
+    if replay is None:
+        run_sequences(chk)
+
+
+def run_sequences(chk, replay=None):
+    """Multi-step programs (several collections, copies of them, mutators applied to the copies and the originals, display and
+    iteration afterwards) through the interpreter and through the evaluator model Sem: a crash of the host, or any answer other
+    than the model's value / Zn error, is reported.  The single-call sweep above cannot reach states that only a sequence builds
+    (two dictionaries sharing storage after a copy, a list emptied by another name, ...)."""
+    from vlib import semprop, proggen
+    from props import c07
+    profiles = [
+        (3, proggen.Profile(collections=4.0, control=0.6, funcs=0.6, classes=0.8, exceptions=0.3, markers=0.3, type_errors=0.08, stmts=(5, 12))),
+        (1, proggen.Profile(collections=2.0, funcs=1.5, classes=1.5, exceptions=1.0, type_errors=0.1)),
+    ]
+    n = 40 if chk.tier == "quick" else 500
+    extra = [(c07.history(chk.rng), None, "copy-history") for _ in range(n)] if replay is None else []
+    semprop.run_property(chk, "C10", "c10s", profiles, 50, 700, replay=replay, extra_programs=extra,
+                         what="a program crashes the host or answers differently from the evaluator model")
 
 
 def check_inventory(chk):
